@@ -21,6 +21,16 @@ func init() { register("C09", runC09, replayC09) }
 
 var errInjected = errors.New("injected reader failure")
 
+// errInjectedEOF is a reader failure that *wraps* io.EOF (as url.Error or a "%w" of a lower
+// layer's EOF does): it is an error of the reader, not the end of the stream.
+type wrapEOF struct{}
+
+func (wrapEOF) Error() string        { return "injected reader failure (unexpected EOF from a lower layer)" }
+func (wrapEOF) Is(target error) bool { return target == errInjected || target == io.EOF }
+func (wrapEOF) Unwrap() error        { return io.EOF }
+
+var errInjectedEOF error = wrapEOF{}
+
 // testReader serves data in fragments chosen by a partition policy and can
 // fail at a byte offset.
 type testReader struct {
@@ -32,6 +42,7 @@ type testReader struct {
 	eofMode int // 0: (n, EOF) together with the last bytes, 1: (0, EOF) separately
 	done    func()
 	reads   int
+	failErr error // what a failing Read returns (errInjected or errInjectedEOF)
 }
 
 func (t *testReader) Read(p []byte) (int, error) {
@@ -40,7 +51,7 @@ func (t *testReader) Read(p []byte) (int, error) {
 		if t.done != nil {
 			t.done()
 		}
-		return 0, errInjected
+		return 0, t.failErr
 	}
 	if t.pos >= len(t.data) {
 		if t.done != nil {
@@ -90,7 +101,7 @@ func (t *testReader) Read(p []byte) (int, error) {
 			if t.done != nil {
 				t.done()
 			}
-			return 0, errInjected
+			return 0, t.failErr
 		}
 	}
 	copy(p, rest[:n])
@@ -134,7 +145,10 @@ func (w *W) c09Run(sm *sched.Stream, name string, data []byte, want []*ref.Value
 	}
 	sm.Reset(cfg.policy, j, seed)
 	r := gen.New(seed, "c09run")
-	rd := &testReader{data: data, r: r.Split(), frag: cfg.frag, failAt: cfg.failAt, eofMode: cfg.eofMode, done: sm.ReaderDone}
+	rd := &testReader{data: data, r: r.Split(), frag: cfg.frag, failAt: cfg.failAt, eofMode: cfg.eofMode, done: sm.ReaderDone, failErr: errInjected}
+	if cfg.failAt >= 0 && (cfg.failAt+cfg.frag+cfg.reuse)%2 == 1 {
+		rd.failErr = errInjectedEOF
+	}
 	res := make(chan simdjson.Stream, cfg.resBuf)
 	var reuse chan *simdjson.ParsedJson
 	if cfg.reuse > 0 {
@@ -239,6 +253,10 @@ func (w *W) c09Run(sm *sched.Stream, name string, data []byte, want []*ref.Value
 	} else {
 		if finalErr == nil {
 			bad("no-final-error", "reader failed but the channel was closed without an error element")
+			return
+		}
+		if finalErr == io.EOF {
+			bad("reader-error-taken-for-end-of-stream", fmt.Sprintf("the reader failed with %q but the stream ended with a plain io.EOF (after %d documents)", rd.failErr, got))
 			return
 		}
 		if !errors.Is(finalErr, errInjected) {
